@@ -32,7 +32,7 @@ def gen_case(rng):
     # junk lines: (kind, payload) placed after item index i
     junk = []
     for _ in range(rng.randint(0, 6)):
-        kind = rng.choice(['blank', 'tab', 'ctrl', 'ctrl', 'ctrl', 'nel', 'ls', 'ps', 'badbytes', 'badhex', 'hexctrl', 'nocount', 'nocount'])
+        kind = rng.choice(['blank', 'tab', 'ctrl', 'ctrl', 'ctrl', 'nel', 'ls', 'ps', 'badbytes', 'badhex', 'hextrunc', 'hexctrl', 'nocount', 'nocount'])
         ctrl = rng.choice(JUNK_CTRL)
         if kind == 'hexctrl' and rng.random() < 0.4:
             ctrl = rng.choice('\n\r')          # only a $HEX[] line can carry a line feed / carriage return inside (or at the end of) a password
@@ -70,6 +70,9 @@ MW_WORDS = ['horse', 'battery', 'staple', 'correct', 'river', 'stone', 'wall', '
 def rnd_pos(rng, n):
     return rng.randrange(n + 1)
 
+def pos_choice(pos, options):
+    return options[pos % len(options)]
+
 def junk_bytes(j, enc):
     pos, kind, ctrl, pat = j
     if kind in ('blank', 'nocount'):
@@ -87,6 +90,12 @@ def junk_bytes(j, enc):
     if kind == 'badbytes':
         return {'utf-8': b'caf\xe9\xff', 'ascii': b'caf\xe9', 'cp1252': b'ab\x81cd', 'cp1251': b'ab\x98cd', 'latin-1': b'\x0bxx'}[enc]
     if kind == 'badhex':
+        return b'$HEX[4g]'
+    if kind == 'hextrunc':
+        # well-formed hex digits whose bytes end in the middle of a multi-byte character: undecodable as a whole, nothing of it is a password and
+        # nothing of it belongs to the next line
+        if enc == 'utf-8':
+            return b'$HEX[' + (b'pass'.hex() + pos_choice(pos, ['c3', 'e282', 'f09f98', 'd0'])).encode() + b']'
         return b'$HEX[4g]'
     if kind == 'hexctrl':
         return b'$HEX[' + pat.replace('%s', ctrl).encode(enc).hex().encode() + b']'
